@@ -203,6 +203,21 @@ func setKey(ids []int) uint32 {
 
 // evalSet runs one set; returns failing-client bits per kind (nil if none).
 func (a *levelA) evalSet(set []decl, collect func(ci, want, got int, mlen uint8, errText string)) (failBits, []point, error) {
+	if msg := preflight(set); msg != "" {
+		// Rearranger panics on this set: the compiler would crash (the panic is raised in
+		// a goroutine of SubnetRanger.MarshalMap). Every lookup counts as an error.
+		fb := make(failBits, nKinds)
+		for q := range fb {
+			fb[q] = make([]uint64, a.words)
+		}
+		for ci := range a.clients {
+			fb[kError][ci/64] |= 1 << uint(ci%64)
+		}
+		atomic.AddInt64(&a.sets, 1)
+		atomic.AddInt64(&a.evals, int64(len(a.order)))
+		atomic.AddInt64(&a.failing, int64(len(a.order)))
+		return fb, []point{{n: -1, val: []byte(msg)}}, nil
+	}
 	pts, err := rangePoints(set)
 	if err != nil {
 		return nil, nil, err
@@ -280,7 +295,10 @@ func (a *levelA) report(ids []int, set []decl, fb failBits, pts []point) {
 		c := &a.clients[first]
 		want := oracle(set, c)
 		var gotS string
-		{
+		if len(pts) == 1 && pts[0].n == -1 {
+			gotS = "a panic in the Rearranger: " + string(pts[0].val)
+			pts = nil
+		} else {
 			ck := a.ckeys[first]
 			var p *point
 			for i := range pts {
@@ -478,4 +496,37 @@ func ip16Text(b []byte) string {
 		a.lo = a.lo<<8 | uint64(b[8+i])
 	}
 	return addrText(6, a)
+}
+
+// rnetOf builds the *net.IPNet that Rnet.UnmarshalText hands to the Rearranger
+// for a '%' line: 16-byte address, 128-bit mask.
+func rnetOf(p *prefix) *net.IPNet {
+	_, n, err := net.ParseCIDR(p.text)
+	if err != nil {
+		panic(err)
+	}
+	n.IP = n.IP.To16()
+	if ones, bits := n.Mask.Size(); bits < 128 {
+		n.Mask = net.CIDRMask(ones+128-bits, 128)
+	}
+	return n
+}
+
+// preflight drives the Rearranger directly in this goroutine so that a panic in
+// AddLocation/Rearrange can be observed ("" = no panic). The tables themselves
+// are always taken from the codec path.
+func preflight(set []decl) (msg string) {
+	defer func() {
+		if p := recover(); p != nil {
+			msg = fmt.Sprint(p)
+		}
+	}()
+	r := dnsdata.NewRearranger(len(set))
+	for _, d := range set {
+		if err := r.AddLocation(rnetOf(d.p), []byte(locNames[d.loc])); err != nil {
+			return "AddLocation: " + err.Error()
+		}
+	}
+	r.Rearrange()
+	return ""
 }
